@@ -48,13 +48,19 @@ Pow2(n) == 2 ^ n
 (***************************************************************************)
 (* Addresses and zones.  A source address (and an "ip" identifier) is the  *)
 (* number  n = zone * 2^W + bits :  bits is the W-bit address proper, zone *)
-(* is 0 for "no zone" or the number of an IPv6 zone (fe80::1%eth0).  Two   *)
-(* spellings that differ in the zone are DIFFERENT addresses: the exact-IP *)
-(* rule compares n (the code documents this: Storage.FindLoose exists      *)
-(* precisely because Find compares addresses with their zone, and "multiple*)
-(* clients can have the same IP address with different zones").  Prefixes  *)
-(* have no zone and containment looks at the bits only (index.findByIP:    *)
-(* "Remove zone before checking because prefixes strip zones").            *)
+(* is 0 for "no zone" or the number of an IPv6 zone (fe80::1%eth0).        *)
+(* Identifiers in different zones are different identifiers ("multiple     *)
+(* clients can have the same IP address with different zones").  The       *)
+(* exact-IP rule for a request from n: an identifier with exactly the      *)
+(* request's zone first, then the same address written WITHOUT a zone      *)
+(* (identifiers are copied from the query log, which never shows a zone;   *)
+(* the access lists and $client rules ignore the zone as well) -- see      *)
+(* ExactOwner.  Until the third audit this module read a zone-less         *)
+(* identifier as matching zone-less requests only (ByAddrZoneStrict, kept  *)
+(* to recognise the listed finding); that reading made the filtering and   *)
+(* the query log attribute one request to two clients.  Prefixes have no   *)
+(* zone and containment looks at the bits only (index.findByIP: "Remove    *)
+(* zone before checking because prefixes strip zones").                    *)
 (***************************************************************************)
 Bits(n) == n % Pow2(W)
 Zone(n) == n \div Pow2(W)
@@ -141,11 +147,28 @@ Covering(R, a) == {p \in IdsOf(R) : Kind(p) = "net" /\ Contains(p, a)}
 \* length, so the longest one is unique.
 MostSpecific(R, a) == CHOOSE p \in Covering(R, a) : \A q \in Covering(R, a) : q[3] <= p[3]
 
-ByAddr(R, L, a) ==
+\* The owner of the exact address of a request from a: the identifier in
+\* exactly the request's zone, else the same address written without a zone.
+ExactOwner(R, a) ==
     IF Owners(R, <<"ip", a, 0>>) # {} THEN Owner(R, <<"ip", a, 0>>)
-    ELSE IF Covering(R, a) # {} THEN Owner(R, MostSpecific(R, a))
+    ELSE IF Zone(a) # 0 THEN Owner(R, <<"ip", Bits(a), 0>>)
+    ELSE NoClient
+
+\* The zone-less identifier decides (no identifier in the request's own zone).
+ZoneFallback(R, a) ==
+    Zone(a) # 0 /\ Owners(R, <<"ip", a, 0>>) = {} /\ Owners(R, <<"ip", Bits(a), 0>>) # {}
+
+BelowExact(R, L, a) ==
+    IF Covering(R, a) # {} THEN Owner(R, MostSpecific(R, a))
     ELSE IF LeaseOf(L, a) # NoId THEN Owner(R, LeaseOf(L, a))
     ELSE NoClient
+
+ByAddr(R, L, a) ==
+    IF ExactOwner(R, a) # NoClient THEN ExactOwner(R, a) ELSE BelowExact(R, L, a)
+
+\* The reading without the zone-less fallback (what index.findByIP did).
+ByAddrZoneStrict(R, L, a) ==
+    IF Owners(R, <<"ip", a, 0>>) # {} THEN Owner(R, <<"ip", a, 0>>) ELSE BelowExact(R, L, a)
 
 \* The client a request (ClientID cid or NoId, source address a) belongs to.
 Resolve(R, L, cid, a) ==
@@ -231,9 +254,14 @@ LooseSet(R, L, cid, n) ==
 (***************************************************************************)
 Applied(b) == IF b.pause THEN {} ELSE b.svcs
 
-Effective(R, L, G, cid, a) ==
-    LET c == Resolve(R, L, cid, a) IN
+EffOf(c, G) ==
     [who  |-> c.name,
      vals |-> IF c.own THEN c.vals ELSE G.vals,
      svcs |-> IF c.bs  THEN Applied(c) ELSE Applied(G)]
+
+Effective(R, L, G, cid, a) == EffOf(Resolve(R, L, cid, a), G)
+
+\* (to recognise the listed finding, see ByAddrZoneStrict)
+EffectiveZoneStrict(R, L, G, cid, a) ==
+    EffOf(IF cid # NoId /\ Owners(R, cid) # {} THEN Owner(R, cid) ELSE ByAddrZoneStrict(R, L, a), G)
 =============================================================================
